@@ -80,6 +80,8 @@ def candidates(path):
                     # generics / arrows / lifetimes
                     if a.strip() in ("<", ">", "<=", ">=") and re.search(r"(Result|Option|Vec|Box|impl|dyn|PhantomData|::)\s*$", code[:m.start()]):
                         continue
+                    if a == " + " and re.search(r"[A-Z]\w*(<[^>]*>)?\s*\+\s*['A-Z?]", code):
+                        continue                                      # trait bounds
                     out.append((kind, i, m.start(), a, b))
         for m in re.finditer(r"(?<![\w.])(\d+)(?![\w.])", code):
             n = int(m.group(1))
